@@ -153,7 +153,9 @@ def scenarios(tier):
 
 def main(tier, replay, seed):
     import paramiko.buffered_pipe as BP
-    from cfa.driver import run_property
+    from cfa.driver import run_property, replay_file
+    if replay:
+        return replay_file(PROPERTY, scenarios("thorough"), replay)
     fns = [BP.BufferedPipe.feed, BP.BufferedPipe.read, BP.BufferedPipe.empty, BP.BufferedPipe.close,
            BP.BufferedPipe._buffer_frombytes, BP.BufferedPipe._buffer_tobytes]
     return run_property(PROPERTY, scenarios(tier), tier, seed, fns,
